@@ -3,10 +3,13 @@
    written in real and imaginary parts is a square root, the index of refraction expression is the
    documented formula, f0 at Q = 0 is sum a_i + c and is continuous there.
    Uses the standard library's classical reals. *)
-From Coq Require Import Reals ZArith QArith Qreals List Lra Lia Psatz.
+From Coq Require Import ZArith QArith Qreals List Lia Reals Lra Psatz.
 From PT Require Import Ancillary IExpr XsfReal.
 Import ListNotations.
 Open Scope R_scope.
+
+(* 0 <= x*x as a hypothesis (this installation's nra finds no certificates) *)
+Ltac sq x := let H := fresh "Hsq" in pose proof (Rle_0_sqr x) as H; unfold Rsqr in H.
 
 (* ------------------------------------------------------------------ complex numbers as pairs *)
 Definition C2 := (R * R)%type.
@@ -57,17 +60,20 @@ Theorem reflectivity_in_unit_interval : forall ki p q s2,
 Proof.
   intros ki p q s2 Hk Hp Hs Hd. rewrite fresnel_modulus by exact Hd.
   set (num := (ki - p) * (ki - p) + q * q). set (den := (ki + p) * (ki + p) + q * q).
-  assert (0 <= num) as Hn by (unfold num; nra).
-  assert (num <= den) as Hnd by (unfold num, den; nra).
+  assert (0 <= num) as Hn by (unfold num; sq (ki - p); sq q; lra).
+  assert (den = num + 4 * (ki * p)) as Hdn by (unfold num, den; ring).
+  assert (0 < den) as Hd' by exact Hd. clear Hd. rename Hd' into Hd.
+  pose proof (Rmult_le_pos ki p Hk Hp) as Hkp. set (kp := ki * p) in *. clearbody num den kp.
+  assert (num <= den) as Hnd by lra.
   assert (0 <= num / den <= 1) as Hq.
   { split.
     - apply Rmult_le_pos; [exact Hn|]. left. apply Rinv_0_lt_compat. exact Hd.
     - apply (Rmult_le_reg_r den); [exact Hd|]. unfold Rdiv. rewrite Rmult_assoc, Rinv_l by lra. lra. }
-  assert (0 < exp (- (4 * (ki * p * s2))) <= 1) as He.
+  assert (0 < exp (- (4 * (kp * s2))) <= 1) as He.
   { split; [apply exp_pos|]. rewrite <- exp_0.
-    destruct (Req_dec (4 * (ki * p * s2)) 0) as [Z|Z].
+    destruct (Req_dec (4 * (kp * s2)) 0) as [Z|Z].
     - rewrite Z, Ropp_0. lra.
-    - left. apply exp_increasing. assert (0 <= ki * p * s2) by (repeat apply Rmult_le_pos; assumption). lra. }
+    - left. apply exp_increasing. assert (0 <= kp * s2) by (apply Rmult_le_pos; assumption). lra. }
   split; [apply Rmult_le_pos; lra|].
   replace 1 with (1 * 1) by ring. apply Rmult_le_compat; lra.
 Qed.
@@ -79,7 +85,7 @@ Definition sgn (b : R) : R := if Rle_dec 0 b then 1 else -1.
 
 Lemma zmod_ge_abs : forall a b, Rabs a <= zmodR a b.
 Proof.
-  intros a b. unfold zmodR. rewrite <- (sqrt_Rsqr_abs a). apply sqrt_le_1_alt. unfold Rsqr. nra.
+  intros a b. unfold zmodR. rewrite <- (sqrt_Rsqr_abs a). apply sqrt_le_1_alt. unfold Rsqr. sq b. lra.
 Qed.
 
 Theorem csqrt_parts : forall a b,
@@ -98,7 +104,7 @@ Proof.
   assert (sqrt ((m - a) / 2) * sqrt ((m - a) / 2) = (m - a) / 2) as Qq by (apply sqrt_sqrt; exact H2).
   assert (sgn b * sgn b = 1) as Ss by (unfold sgn; destruct (Rle_dec 0 b); ring).
   assert (m * m = a * a + b * b) as Mm.
-  { unfold m, zmodR. apply sqrt_sqrt. nra. }
+  { unfold m, zmodR. apply sqrt_sqrt. sq a. sq b. lra. }
   f_equal.
   - unfold q. replace (p * p - sgn b * sqrt ((m - a) / 2) * (sgn b * sqrt ((m - a) / 2)))
       with (p * p - (sgn b * sgn b) * (sqrt ((m - a) / 2) * sqrt ((m - a) / 2))) by ring.
@@ -107,7 +113,8 @@ Proof.
     replace (sqrt ((m + a) / 2) * (sgn b * sqrt ((m - a) / 2)) + sgn b * sqrt ((m - a) / 2) * sqrt ((m + a) / 2))
       with (2 * sgn b * (sqrt ((m + a) / 2) * sqrt ((m - a) / 2))) by ring.
     rewrite <- sqrt_mult by assumption.
-    replace ((m + a) / 2 * ((m - a) / 2)) with (Rsqr (b / 2)) by (unfold Rsqr; field_simplify; nra).
+    replace ((m + a) / 2 * ((m - a) / 2)) with (Rsqr (b / 2))
+      by (unfold Rsqr; replace ((m + a) / 2 * ((m - a) / 2)) with ((m * m - a * a) / 4) by field; rewrite Mm; field).
     rewrite sqrt_Rsqr_abs. unfold sgn. destruct (Rle_dec 0 b) as [C|C].
     + rewrite Rabs_right by lra. field.
     + rewrite Rabs_left by lra. field.
@@ -149,21 +156,21 @@ Theorem refl_model_in_unit_interval : forall env,
   0 <= evalR env refl_vars <= 1.
 Proof.
   intros env Hl Hs Hnz. unfold refl_vars, refl_expr, refl_sc. rewrite refl_core_value.
-  set (k := evalR env (k_expr (EVar 0))).
+  set (k := 2 * PI / env 0%nat).
   assert (0 < k) as Hk.
-  { unfold k, k_expr. simpl. rewrite Q2R_inject_Z. apply Rmult_lt_0_compat; [|apply Rinv_0_lt_compat; exact Hl].
-    pose proof PI_RGT_0. lra. }
+  { unfold k. apply Rmult_lt_0_compat; [|apply Rinv_0_lt_compat; exact Hl]. pose proof PI_RGT_0. lra. }
   set (a := env 1%nat * env 1%nat - env 2%nat * env 2%nat - cos (env 3%nat) * cos (env 3%nat)).
   set (b := 2 * (env 1%nat * env 2%nat)).
   set (m := zmodR a b).
   assert (Rabs a <= m) as Hm by apply zmod_ge_abs.
   assert (0 <= (m + a) / 2) as H1 by (unfold Rabs in Hm; destruct (Rcase_abs a); lra).
   assert (0 <= (m - a) / 2) as H2 by (unfold Rabs in Hm; destruct (Rcase_abs a); lra).
-  assert (evalR env (ki_expr (EVar 0) (ESin (EVar 3))) = k * sin (env 3%nat)) as Eki by reflexivity.
+  assert (evalR env (ki_expr (EVar 0) (ESin (EVar 3))) = k * sin (env 3%nat)) as Eki.
+  { unfold ki_expr, k_expr. simpl. rewrite !Q2R_inject_Z. reflexivity. }
   assert (evalR env (kp_expr (EVar 0) (EVar 1) (EVar 2) (ECos (EVar 3))) = k * sqrt ((m + a) / 2)) as Ekp.
-  { unfold kp_expr, p_expr, zmod_expr, za_expr, zb_expr. simpl. rewrite !Q2R_inject_Z. reflexivity. }
+  { unfold kp_expr, p_expr, zmod_expr, za_expr, zb_expr, k_expr. simpl. rewrite !Q2R_inject_Z. reflexivity. }
   assert (evalR env (kq2_expr (EVar 0) (EVar 1) (EVar 2) (ECos (EVar 3))) = k * k * ((m - a) / 2)) as Ekq.
-  { unfold kq2_expr, q2_expr, zmod_expr, za_expr, zb_expr. simpl. rewrite !Q2R_inject_Z. reflexivity. }
+  { unfold kq2_expr, q2_expr, zmod_expr, za_expr, zb_expr, k_expr. simpl. rewrite !Q2R_inject_Z. reflexivity. }
   rewrite Eki, Ekp, Ekq. simpl (evalR env (EVar 4)).
   set (ki := k * sin (env 3%nat)). set (kp := k * sqrt ((m + a) / 2)).
   set (kq := k * sqrt ((m - a) / 2)).
@@ -176,7 +183,8 @@ Proof.
   assert (0 <= kp) as Hkp by (unfold kp; apply Rmult_le_pos; [lra|apply sqrt_pos]).
   assert (0 < (ki + kp) * (ki + kp) + kq * kq) as Hd.
   { destruct Hnz as [Hpos|Hmz].
-    - assert (0 < ki) by (unfold ki; apply Rmult_lt_0_compat; assumption). nra.
+    - assert (0 < ki) as Hkip by (unfold ki; apply Rmult_lt_0_compat; assumption).
+      assert (0 < (ki + kp) * (ki + kp)) by (apply Rmult_lt_0_compat; lra). sq kq. lra.
     - fold a b m in Hmz.
       assert (0 < m) as Hmp by (pose proof (Rabs_pos a); lra).
       (* kp^2 + kq^2 = k^2 m > 0 *)
@@ -185,10 +193,11 @@ Proof.
         replace (k * sqrt ((m + a) / 2) * (k * sqrt ((m + a) / 2)) + k * sqrt ((m - a) / 2) * (k * sqrt ((m - a) / 2)))
           with (k * k * (sqrt ((m + a) / 2) * sqrt ((m + a) / 2) + sqrt ((m - a) / 2) * sqrt ((m - a) / 2))) by ring.
         rewrite !sqrt_sqrt by assumption. field. }
-      assert (0 < k * k * m) by (apply Rmult_lt_0_compat; [nra|exact Hmp]).
-      nra. }
+      assert (0 < k * k * m) by (apply Rmult_lt_0_compat; [apply Rmult_lt_0_compat; exact Hk|exact Hmp]).
+      replace ((ki + kp) * (ki + kp) + kq * kq) with (ki * ki + 2 * (ki * kp) + (kp * kp + kq * kq)) by ring.
+      sq ki. pose proof (Rmult_le_pos ki kp Hki Hkp). lra. }
   pose proof (reflectivity_in_unit_interval ki kp kq (env 4%nat * env 4%nat) Hki Hkp) as R.
-  rewrite fresnel_modulus in R by exact Hd. apply R; [nra|exact Hd].
+  rewrite fresnel_modulus in R by exact Hd. apply R; [sq (env 4%nat); lra|exact Hd].
 Qed.
 
 (* ------------------------------------------------------------------ index of refraction *)
@@ -207,9 +216,12 @@ Fixpoint sumR (l : list R) : R := match l with [] => 0 | x :: r => x + sumR r en
 
 Lemma evalR_esum : forall env l, evalR env (esum l) = sumR (map (evalR env) l).
 Proof.
-  intros env l. induction l as [|x r IH]; [simpl; unfold Q2R; simpl; field|].
-  destruct r as [|y r']; [simpl; ring|]. change (esum (x :: y :: r')) with (EAdd x (esum (y :: r'))).
-  simpl evalR at 1. rewrite IH. reflexivity.
+  intros env l. induction l as [|x r IH].
+  - simpl. unfold Q2R. simpl. field.
+  - destruct r as [|y r'].
+    + simpl. ring.
+    + change (evalR env (esum (x :: y :: r'))) with (evalR env x + evalR env (esum (y :: r'))).
+      rewrite IH. reflexivity.
 Qed.
 
 (* the form factor as a function of the real variable Q *)
@@ -220,7 +232,7 @@ Definition f0R (f : cmf) (q : R) : R :=
 Theorem f0_expr_meaning : forall env f qv, evalR env (f0_expr f qv) = f0R f (evalR env qv).
 Proof.
   intros env f qv. unfold f0_expr, f0R, f0_terms. simpl evalR at 1. rewrite evalR_esum. f_equal.
-  rewrite map_map. apply map_ext. intros [a b]. simpl. rewrite Q2R_inject_Z. reflexivity.
+  rewrite map_map. f_equal. apply map_ext. intros [a b]. simpl. rewrite Q2R_inject_Z. reflexivity.
 Qed.
 
 Lemma Q2R_Qsum : forall l, Q2R (Ancillary.Qsum l) = sumR (map Q2R l).
@@ -242,33 +254,31 @@ Proof.
 Qed.
 
 (* f0 is continuous, so f0(Q) tends to f0(0) as Q -> 0 *)
-Lemma sumR_continuity : forall (fs : list (R -> R)) x,
-  Forall (fun g => continuity_pt g x) fs -> continuity_pt (fun q => sumR (map (fun g => g q) fs)) x.
+Definition cm_term (ab : Q * Q) (q : R) : R :=
+  Q2R (fst ab) * exp (- (Q2R (snd ab) * (q / (4 * PI) * (q / (4 * PI))))).
+
+Lemma cm_term_continuous : forall ab x, continuity_pt (cm_term ab) x.
 Proof.
-  intros fs x H. induction H as [|g r Hg Hr IH].
+  intros ab x. apply derivable_continuous_pt.
+  assert (derivable (cm_term ab)) as D by (unfold cm_term; reg). apply D.
+Qed.
+
+Lemma cm_sum_continuous : forall (l : list (Q * Q)) x,
+  continuity_pt (fun q => sumR (map (fun ab => cm_term ab q) l)) x.
+Proof.
+  intros l x. induction l as [|ab r IH].
   - simpl. apply continuity_pt_const. intros a b. reflexivity.
-  - simpl. apply (continuity_pt_plus g (fun q => sumR (map (fun g0 => g0 q) r)) x Hg IH).
+  - simpl. change (continuity_pt (cm_term ab + (fun q => sumR (map (fun ab0 => cm_term ab0 q) r)))%F x).
+    apply continuity_pt_plus; [apply cm_term_continuous|exact IH].
 Qed.
 
 Theorem f0_continuous : forall f x, continuity_pt (f0R f) x.
 Proof.
   intros f x. unfold f0R.
-  apply (continuity_pt_plus (fun q => sumR (map (fun ab => Q2R (fst ab) * exp (- (Q2R (snd ab) * (q / (4 * PI) * (q / (4 * PI))))))
-                                               (combine (cm_a f) (cm_b f)))) (fun _ => Q2R (cm_c f))).
-  - set (l := combine (cm_a f) (cm_b f)).
-    assert (forall q, sumR (map (fun ab => Q2R (fst ab) * exp (- (Q2R (snd ab) * (q / (4 * PI) * (q / (4 * PI)))))) l)
-                      = sumR (map (fun g => g q)
-                                  (map (fun ab => fun q0 => Q2R (fst ab) * exp (- (Q2R (snd ab) * (q0 / (4 * PI) * (q0 / (4 * PI)))))) l))) as E.
-    { intro q. rewrite map_map. reflexivity. }
-    apply (continuity_pt_ext (fun q => sumR (map (fun g => g q)
-             (map (fun ab => fun q0 => Q2R (fst ab) * exp (- (Q2R (snd ab) * (q0 / (4 * PI) * (q0 / (4 * PI)))))) l)))).
-    { intro q. symmetry. apply E. }
-    apply sumR_continuity. rewrite Forall_forall. intros g Hg. apply in_map_iff in Hg.
-    destruct Hg as [[a b] [Eg _]]. subst g. simpl.
-    apply derivable_continuous_pt.
-    assert (derivable (fun q0 => Q2R a * exp (- (Q2R b * (q0 / (4 * PI) * (q0 / (4 * PI))))))) as D by reg.
-    apply D.
-  - apply continuity_pt_const. intros a b. reflexivity.
+  change (continuity_pt ((fun q => sumR (map (fun ab => cm_term ab q) (combine (cm_a f) (cm_b f))))
+                         + (fun _ => Q2R (cm_c f)))%F x).
+  apply continuity_pt_plus; [apply cm_sum_continuous|].
+  apply continuity_pt_const. intros a b. reflexivity.
 Qed.
 
 Theorem f0_limit_at_zero : forall f, length (cm_a f) = length (cm_b f) ->
